@@ -163,6 +163,28 @@ def gen_cases(tier, seed):
         dist['plan']['faults'] = [{'at': f1, 'phase': 'before', 'kind': 'oserror' if '/fs:' in f1 else 'exc', 'tag': f'FAULT-v{v}'},
                                   {'at': f2, 'phase': 'before', 'kind': kind2, 'tag': f'FAULT-v{v}-cleanup'}]
         cases.append({'base': base, 'dist': dist, 'victims': [v], 'style': 'cleanup-fails-too', 'exit': 'shutdown_plain'})
+    # callbacks acting on other transfers of the manager: on_done of the first transfer (which succeeds, fails or is cancelled)
+    # cancels its siblings - some not started yet - or starts a fresh transfer on the same manager
+    from .c04 import fault_or_cancel as _foc
+
+    for kind, extra in gen.KINDS:
+        for act in ('cancel_sibling', 'submit_new'):
+            for outcome in ('success', 'fault', 'fault', 'cancel'):
+                for rep in range(1 if quick else 3):
+                    t = dict({'kind': kind, 'size': rng.choice([5, 20])}, **extra)
+                    t['subs'] = [{'reenter': {'on_done': [act]}}, {}]
+                    ts = [t] + [dict({'kind': k2, 'size': rng.choice([5, 20])}, **e2) for (k2, e2) in rng.sample(gen.KINDS, rng.choice([1, 2]))]
+                    cfg = dict(multipart_threshold=16, multipart_chunksize=8, io_chunksize=4, max_request_concurrency=rng.choice([1, 2]),
+                               max_submission_concurrency=rng.choice([1, 1, 2]))
+                    sp = {'seed': rng.randrange(1 << 30), 'min_part': 8, 'config': cfg, 'transfers': ts, 'family': 'callbacks-on-others', 'plan': {},
+                          'chained': True}
+                    if outcome != 'success':
+                        _foc(rng, t, sp)
+                    cases.append({'style': 'chained', 'spec': sp})
+
+    from ..gen import sprinkle
+
+    sprinkle(cases, seed)
     return cases
 
 
@@ -203,9 +225,31 @@ def barrier_violations(obs):
     return out, unfinished
 
 
+def chained_evaluate(obs):
+    """'Usable' from inside a callback: an on_done subscriber of one transfer cancels its siblings or starts a fresh transfer on the
+    same manager.  Everything ends (a deadlock is reported by the runner), the fresh transfer succeeds, and a sibling the callback
+    did not touch keeps a successful outcome."""
+    viol = []
+    co = getattr(obs, 'chained_outcomes', None) or []
+    stats = {'chained_runs': 1, 'chained_started': len(co), 'disturbed_fault_hit': len(obs.world.director.raised)}
+    for (k, how, what) in co:
+        if how != 'success':
+            viol.append(V(f'a fresh upload ({k}) started on the same manager from inside on_done ended {how}: {what}', sym='chained-failed'))
+    acts = [a for t in obs.spec['transfers'] for sb in (t.get('subs') or []) for a in (sb.get('reenter') or {}).get('on_done', ())]
+    if 'cancel_sibling' not in acts and not obs.cancel_events:
+        for x in obs.xfers[1:]:
+            if x.outcome == 'raised':
+                viol.append(V(f'{x.label} ({x.kind}) had nothing wrong with it but ended {scenario.describe_outcome(x)} beside a transfer whose on_done '
+                              f'started a fresh transfer', sym='bystander-failed', kind=x.kind))
+    return viol, stats, True, {'outcomes': e2e.default_outcomes(obs), 'chained': co}
+
+
 def run_case(case):
     from .. import scenario
 
+    if case.get('style') == 'chained':
+        r = e2e.run_with(case['spec'], chained_evaluate, liveness=True)
+        return r
     res = {'verdict': 'held', 'key': None, 'violations': [], 'stats': {}, 'summary': {}}
     runs = {}
     for name in (('dist',) if case['style'] == 'cancelling-exit' else ('base', 'dist')):
